@@ -110,7 +110,9 @@ def strategy():
                             '$@^', '$@^^', '$$@^^^', '$@^-2', 'b$@^^*2', 'a*2>', 'li*3>', '(a*2>b*2>'])
     f = st.builds(lambda fs, c: {'abbr': cfgs.bound_repeats(''.join(fs)), 'cfg': c}, st.lists(frag, max_size=14), cfgs.markup_config())
     cfrag = st.sampled_from(['m', 'p', 'bd', 'c', 'bg', 'lg', 'trf', 'animic', 'pos', 'fz', '10', '-', '--', '.5', '1.', '#', '#f', '#fc0', '#t', '.', '!',
-                             '+', ':', ',', '(', ')', '"', "'", 'a', 'auto', 'p', 'e', '%', '$v', '@k', '${1}', '${1:x}', ' ', '/', 'xx', 'raw', 'gt', 'é'])
+                             '+', ':', ',', '(', ')', '"', "'", 'a', 'auto', 'p', 'e', '%', '$v', '@k', '${1}', '${1:x}', ' ', '/', 'xx', 'raw', 'gt', 'é',
+                             # function calls as one fragment, so that "call directly followed by a field / variable / number / colour" is reachable
+                             'foo(1)', 'calc(1)', 'url(a)', 'rotate(1)', 'f()', 'p:', 'm:', 'trf:', 'bg:', '${a}', '$a'])
     g = st.builds(lambda fs, c: {'abbr': ''.join(fs), 'cfg': c}, st.lists(cfrag, max_size=10), cfgs.css_config())
     # valid structured abbreviations (G1 model: nested repeaters/groups, counters in every value position, full text and attribute forms),
     # with parent-numbering carets spliced into counters (`$@^`, `$@^^` …) and optionally one character-level mutation
